@@ -55,7 +55,7 @@ def generate(seed, tier):
         "call_form": r.choice(["keyword", "keyword", "positional"]),
     }
     n_wit = r.randint(1, 4)
-    flav = [r.choice(["class", "class", "lambda"]) for _ in range(n_wit)]
+    flav = [r.choice(["class", "class", "lambda", "sized"]) for _ in range(n_wit)]
     total = n_events(tc, N)
     faults = []
     m = r.random()
@@ -96,6 +96,8 @@ def generate(seed, tier):
             "scheduler": r.random() < 0.3,
             "jumpy_clock": r.random() < 0.5,
             "rng_mode": r.choice(["honest", "honest", "rare"]),
+            # if the first run ends without a stop, training is continued on the same state
+            "continue": r.choice([None, None, None, {"span": r.randint(0, 2), "gap": r.choice([0, 0, 1])}]),
         },
         "faults": faults,
     }
@@ -140,6 +142,7 @@ def execute(plan):
             # the request persists: a second run on the same state, started while the stop is still
             # requested, must emit nothing and change nothing
             n_first = len(run.log.entries)
+            reads_first = clock.reads
             if info["raised"] is None and info["flag_after"] and not info["crashed"]:
                 before2 = state_digest(state)
                 reads2 = clock.reads
@@ -154,6 +157,20 @@ def execute(plan):
                     run.require(state_digest(state) == before2, "S5", "second fit on a state whose stop request persists changed parameters", second=True)
                     run.require(clock.reads == reads2, "S5", "second fit on a state whose stop request persists started the timer", second=True)
                     run.require(info2["flag_after"], "P", "stop request was cleared by a second fit", second=True)
+            # continuation: a second run on the same state picks up at a later starting epoch
+            n_cont = None
+            if info["raised"] is None and not info["flag_after"] and not info["crashed"] and cfg.get("continue"):
+                n_cont = len(run.log.entries)
+                se2 = max(tc["epochs"], tc["starting_epoch"] - 1) + 1 + cfg["continue"]["gap"]
+                tc2 = dict(tc, starting_epoch=se2, epochs=se2 - 1 + cfg["continue"]["span"])
+                info2 = run_fit(run, state, tc2, data_in, bases, n_wit=cfg["n_wit"], flavours=cfg.get("flavours"), scheduler=sched, scheduler_args=sargs)
+                run.probes["continued_fit"] += 1
+                if info2["raised"] is not None:
+                    run.lib_exception(info2["raised"], "continued fit")
+                else:
+                    items2, _ = protocol.extract(run, cfg["n_wit"], frm=n_cont)
+                    protocol.judge(run, items2, tc2["starting_epoch"], tc2["epochs"], cfg["data"]["N"], tc2["pos_bs"], flag_after=info2["flag_after"], digest_before=info2["digest_before"], digest_after=info2["digest_after"])
+                n_first = n_cont
         rng.check_global()
     if info["raised"] is not None:
         run.lib_exception(info["raised"], "fit", N=cfg["data"]["N"], type=cfg["state"]["type"])
@@ -169,6 +186,8 @@ def execute(plan):
             tc["pos_bs"],
             preset=info["preset"],
             flag_after=info["flag_after"],
+            digest_before=info.get("digest_before"),
+            digest_after=info.get("digest_after"),
         )
         if not any(it[0] == "ev" for it in items) and any(it[0] == "stop" for it in items):
             # a request that landed before fit's first check: same contract as a preset stop
@@ -176,11 +195,11 @@ def execute(plan):
             run.require(state_digest(state) == before, "S5", "fit that emitted nothing changed parameters")
         if info["preset"]:
             run.require(state_digest(state) == before, "S5", "fit with stop already requested changed parameters")
-            run.require(clock.reads == 0, "S5", "fit with stop already requested started the timer")
+            run.require(reads_first == 0, "S5", "fit with stop already requested started the timer")
             run.require(info["flag_after"], "P", "preset stop request did not persist")
         if tc.get("time") and any(it[0] == "ev" for it in items):
             # the timing callback is driven by the same protocol: one start, one end reading
-            run.require(clock.reads == 2, "W-timer", f"Timer read the clock {clock.reads} times, expected 2")
+            run.require(reads_first == 2, "W-timer", f"Timer read the clock {reads_first} times, expected 2")
     # abstract trace / coverage
     tr = []
     for it in items:
